@@ -199,6 +199,11 @@ impl<'a> Printer<'a> {
             "tlist" => format!("[{}]", self.ty(&t["e"])),
             // a generic type variable `*A` (C03 arrival universe); additive node kind
             "tgen" => format!("*{}", s(t, "n")),
+            // a generic type applied to arguments `Box(B)` (C11 type-order family); additive node kind
+            "tapp" => {
+                let args: Vec<String> = arr(t, "args").iter().map(|x| self.ty(x)).collect();
+                format!("{}({})", s(t, "n"), args.join(", "))
+            }
             "tfn" => {
                 let ps: Vec<String> = arr(t, "ps").iter().map(|x| self.ty_nested(x)).collect();
                 let pure = b(t, "pure");
@@ -581,6 +586,7 @@ impl<'a> Printer<'a> {
                 let target = match s(t, "k") {
                     "var" => self.name(t["b"].as_i64().unwrap()),
                     "fld" => format!("{}.{}", self.base(&t["e"]), s(t, "f")),
+                    "idx" => format!("{}[{}]", self.base(&t["e"]), t["i"].as_i64().unwrap()),
                     other => panic!("printer: bad assignment target {}", other),
                 };
                 let v = self.expr(&st["e"]);
@@ -627,11 +633,21 @@ impl<'a> Printer<'a> {
         self.out.push('\n');
     }
 
+    /// `(*T, *U)` for a declaration with the optional field `gen: ["T", "U"]`; absent or empty = not generic
+    fn gen_params(t: &Value) -> String {
+        match t.get("gen").and_then(|g| g.as_array()) {
+            Some(g) if !g.is_empty() => {
+                format!("({})", g.iter().map(|x| format!("*{}", x.as_str().unwrap_or("T"))).collect::<Vec<_>>().join(", "))
+            }
+            _ => String::new(),
+        }
+    }
+
     fn top(&mut self, t: &Value) {
         match s(t, "k") {
             "def" => self.stmt(t, false),
             "enum" => {
-                let mut text = format!("{} :: enum\n", s(t, "name"));
+                let mut text = format!("{} :: enum{}\n", s(t, "name"), Self::gen_params(t));
                 for v in arr(t, "variants") {
                     if b(v, "has") {
                         text.push_str(&format!("    {} {},\n", s(v, "v"), self.ty(&v["ty"])));
@@ -643,7 +659,7 @@ impl<'a> Printer<'a> {
                 self.out.push_str(&text);
             }
             "blobdecl" => {
-                let mut text = format!("{} :: blob {{\n", s(t, "name"));
+                let mut text = format!("{} :: blob{} {{\n", s(t, "name"), Self::gen_params(t));
                 for f in arr(t, "fields") {
                     text.push_str(&format!("    {}: {},\n", s(f, "f"), self.ty(&f["ty"])));
                 }
